@@ -1,3 +1,4 @@
+import CoapLite.Model.CodecLow
 import CoapLite.Driver.Util
 import CoapLite.Driver.Tbl
 import CoapLite.Model.Codec
@@ -133,7 +134,12 @@ def pkt (ws : List String) : String :=
       | .panic => "panic"
     | _ => "panic"
   | ["dec", h] =>
-    match dec (parseVal h) with
+    let b := parseVal h
+    -- the low-level model (index cursor, partial reads, fixed-width additions) is run as well on
+    -- datagrams of moderate size (list indexing makes it quadratic); it must agree (C03 proves it does)
+    let lowOk := if b.length ≤ 1500 then decide (CodecLow.decLow b = dec b) else true
+    if !lowOk then "LOW-LEVEL-MODEL-DISAGREES" else
+    match dec b with
     | .ok p => "ok " ++ dumpPacket p ++ " | " ++ showBytes (enc p none)
     | .err _ => "err"
     | .panic => "panic"
